@@ -98,7 +98,11 @@ let verdict case impl =
          List.for_all (fun (n, s) -> match s with Some s -> s = N0 && grp n < 3 | None -> grp n >= 3) fb
          && (match pick with Some (n, Some s) -> s = N0 && grp n < 3 | Some (n, None) -> grp n >= 3 | None -> true)
          && List.for_all (List.for_all (fun (_, s) -> s = Some N0)) plans in
-       if plans_ok && fb_ok && pick_ok && heads_ok && ann_ok then "ok"
+       (* the property is about PLANS: only a rejected plan, or a plan whose first target is not an
+          acceptable pick, is a violation; pick() / fallback() observed on their own that the
+          acceptors refuse (e.g. pick() returning None more often) are a broken correspondence *)
+       let plan_heads_ok = List.for_all head_ok plans in
+       if plans_ok && plan_heads_ok && fb_ok && pick_ok && heads_ok && ann_ok then "ok"
        else begin
          let why p =
            let ns = nodes_of p in
@@ -113,7 +117,7 @@ let verdict case impl =
              (String.concat "," (List.map (fun (n, _) -> hex_of_n n ^ ":" ^ string_of_int (grp n)) (match plans with p :: _ -> p | [] -> [])))
              (string_of_nlist (lwt_sequence dcf rackf g kss enabled connected pol rq))
              (int_of_nat (min_group dcf rackf g kss enabled connected pol rq)) in
-         if plans_ok && fb_ok && pick_ok && heads_ok then "diff annotations " ^ detail
+         if plans_ok && plan_heads_ok then "diff " ^ (if fb_ok && pick_ok && heads_ok then "annotations " else "pick-or-fallback ") ^ detail
          else "viol " ^ detail
        end
      | ["panic"] -> "viol panic"
